@@ -689,6 +689,8 @@ def patch_module(mod, **extra):
 
 
 def arange(*args, dtype=None):
+    if dtype is not None and dtype in (getattr(arrays, "sym_int", None), getattr(arrays, "sym_float", None)):
+        dtype = arrays._np_dtype(dtype)           # the repo modules' rebound int / float used as a dtype
     if not any(isinstance(a, Sym) for a in args):
         return np.arange(*args, dtype=dtype)
     if len(args) == 1:
